@@ -32,6 +32,17 @@ type c05step struct {
 type c05lpath struct {
 	steps []c05step
 	num   bool // the item at the end is a number
+	leaf  bool // the item at the end is not a container
+}
+
+// mostly paths that end at an item which is not a container (a write there leaves every other
+// path usable)
+func (g *c05gen) freshPath(paths []c05lpath) c05lpath {
+	p := paths[g.n(len(paths))]
+	for k := 0; k < 3 && !p.leaf; k++ {
+		p = paths[g.n(len(paths))]
+	}
+	return p
 }
 
 type c05litGen struct {
@@ -86,7 +97,7 @@ func (lg *c05litGen) node(d int, prefix []c05step) *c05Expr {
 			child = lg.leaf()
 		}
 		if len(p) >= 2 {
-			lg.paths = append(lg.paths, c05lpath{steps: p, num: child.K == "num" || child.K == "bin"})
+			lg.paths = append(lg.paths, c05lpath{steps: p, num: child.K == "num" || child.K == "bin", leaf: child.K != "list" && child.K != "map"})
 		}
 		if isMap {
 			r.Kvs = append(r.Kvs, [2]*c05Expr{c05copyKey(keys[i]), child})
@@ -166,7 +177,7 @@ func (g *c05gen) freshResults(ev func(i int) []*c05Stmt, pre []*c05Acc, paths []
 		ss = append(ss, ev(i)...)
 		last := i == len(names)-1
 		for k := g.n(3); k > 0 || (last && writes == 0); k-- {
-			p := paths[g.n(len(paths))]
+			p := g.freshPath(paths)
 			ss = append(ss, g.freshWrite(names[g.n(i+1)], pre, p))
 			used = append(used, p)
 			writes++
@@ -184,7 +195,7 @@ func (g *c05gen) freshResults(ev func(i int) []*c05Stmt, pre []*c05Acc, paths []
 		for _, n := range names {
 			probes = append(probes, ePath(n, g.freshAccs(pre, p)...))
 		}
-		if len(probes) >= 6 {
+		if len(probes) >= 4 {
 			break
 		}
 	}
@@ -193,7 +204,7 @@ func (g *c05gen) freshResults(ev func(i int) []*c05Stmt, pre []*c05Acc, paths []
 
 func (g *c05gen) freshProgram() *c05Prog {
 	lit, paths := g.freshLiteral()
-	path := func() c05lpath { return paths[g.n(len(paths))] }
+	path := func() c05lpath { return g.freshPath(paths) }
 	var ss []*c05Stmt
 	var probes []*c05Expr
 	kind := g.n(12)
